@@ -1057,7 +1057,11 @@ def shrink(case):
         step = max(1, len(msg) // 8)
         for i in range(0, len(msg), step):
             cand = msg[:i] + msg[i + step:]
-            yield dict(case, msg=cand, userinfo=[m for m in case.get("userinfo", []) if m in cand])
+            # keep only user-info markers that still sit between "://" and the next "@" of a URL
+            still = []
+            for seg in _re.findall(r"://([^@\n]*)@", cand):
+                still += USER_MARKER.findall(seg)
+            yield dict(case, msg=cand, userinfo=[m for m in case.get("userinfo", []) if m in still])
     if k == "fmt":
         if case["layout"] != 1:
             yield dict(case, layout=1, as_dict=False)
